@@ -176,9 +176,30 @@ def install(proj) -> None:
             return True, values[key]
         if r[0] == "class":
             return True, ClassMarker(r[1])
+        if r[0] == "external":
+            # a constant or a function of a library imported by name (`from numpy import newaxis, int32, argsort`)
+            shared_runtime()
+            if r[1] in ext["table"]:
+                return True, ext["table"][r[1]]
         return False, None
 
     abseval.FALLBACK_NAMES = names
+
+    def module_attr(ev: Evaluator, dotted_name: str):
+        """`np.int32`, `np.newaxis`, `math.inf`: an attribute of a library module imported under an alias."""
+        parts = dotted_name.split(".")
+        if len(parts) < 2 or parts[0] in ev.env or ev.module is None:
+            return False, None
+        target = ev.module.imports.get(parts[0])
+        if not target or target.startswith(proj.package):
+            return False, None
+        shared_runtime()
+        key = ".".join([target] + parts[1:])
+        if key in ext["table"]:
+            return True, ext["table"][key]
+        return False, None
+
+    abseval.FALLBACK_MODULE_ATTR = module_attr
 
     def class_attr(ev: Evaluator, name: str, node) -> Tuple[bool, Any]:
         cls = ev.cls_ctx
